@@ -100,6 +100,9 @@ def call_model(I, fn, args, kwargs):
             # only used to build messages in this code base: opaque placeholder (listed as an assumption)
             I.notes.add("str() of a symbolic number -> opaque placeholder (message text)")
             return "<num>"
+        if isinstance(x, (list, tuple, dict, SymArray, GList)):
+            I.notes.add("str() of a container with symbolic content -> opaque placeholder (message text)")
+            return "<obj>"
         raise Unsupported("str(%s)" % type(x).__name__)
     if fn is abs:
         (x,) = args
@@ -131,7 +134,13 @@ def call_model(I, fn, args, kwargs):
         acc = 0
         for it in its:
             acc = I.binop(ast.Add(), acc, it)
-        return I.binop(ast.Div(), acc, float(len(its)))
+        r = I.binop(ast.Div(), acc, float(len(its)))
+        if isinstance(r, Sym):
+            r = Sym(r.z, r.kind, np_scalar=True)
+        return r
+    if (fn is np.exp or fn is np.log or fn is math.exp or fn is math.log) and I.uf is not None and len(args) == 1 and isinstance(args[0], (Sym, FD)):
+        x = as_real(to_sym(args[0]))
+        return Sym(I.uf.exp(I, x) if fn in (np.exp, math.exp) else I.uf.log(I, x), "real", np_scalar=True)
     if fn in (min, max):
         its = I.iterate(args[0]) if len(args) == 1 else list(args)
         if not its:
